@@ -45,6 +45,15 @@ PROPS = {
                    "(serialisability), per-iteration allocator blocks disjoint and intact within an attempt, HB check on all object data (lockable hand-over).",
         level_note="Sampling over seeds; pre-emption happens at every atomic operation of Context.cpp / PtrLock, so the try-lock/set-owner and release windows are scheduling points.",
         **tiers(10000, 150, 250000, 1800)),
+    "C07": dict(
+        jobs=[dict(harness="c07_deterministic", variant="a", weight=2), dict(harness="c07_deterministic", variant="n", weight=1)],
+        components=comp(), expected_probes=["executions"],
+        design_ref="3.7",
+        level_text="Each simulated run executes one generated cautious workload (non-commutative updates, dynamic work creation) 2-3 times with wl<Deterministic<>> at different thread counts "
+                   "(always including 1) under the drawn interleavings and requires identical per-object commit sequences, final states and committed sets; variants: plain, det_id, local_state, "
+                   "det_id+local_state+per_iter_alloc, det_parallel_break, det_id+fixed_neighborhood. C01 ledger and C02 stamps are checked in every execution.",
+        level_note="Sampling over seeds. Loops below MinDelta=1280 items run as one window; the windowing code runs only in the thorough tier (probe windowed_execution).",
+        **tiers(5000, 150, 100000, 1800)),
     "C08": dict(
         jobs=loop_jobs([3]),
         components=comp(), expected_probes=["attempts_aborted", "items_committed"],
